@@ -138,18 +138,52 @@ theorem inSize_region (region : Sz) (acc : List Sz) (h : ∀ s ∈ acc, s = regi
     · exact h _ hm
     · exact hd
 
-/-- When the layer has exactly the size of the filter region (one filter, region inside the
-    maximum box) every intermediate image has that size and no size assertion can fire —
-    for every primitive list and wiring. -/
-theorem C02_sizes_agree_partial (region : Sz) (ps : List FPrim) (acc : List Sz)
+/-- **No size assertion can fire** (since fix fa8179e): for every region, every layer size, every primitive
+    list and wiring the size book completes, and every image handed to a kernel that asserts equal sizes
+    has the region's size. -/
+theorem C02_sizes_agree (region src : Sz) (ps : List FPrim) (acc : List Sz) :
+    (∃ out, sizeBook region src ps acc = .ok out) ∧
+    ∀ p ∈ ps, ∀ results, ∀ s ∈ kernelInputSizes region src results p, s = region := by
+  constructor
+  · induction ps generalizing acc with
+    | nil => exact ⟨acc, rfl⟩
+    | cons p ps ih =>
+      unfold sizeBook
+      cases p <;> simp only [primSize] <;> exact ih _
+  · intro p _ results s hs
+    unfold kernelInputSizes at hs
+    split at hs <;> simp at hs <;> (first | exact hs | (rcases hs with h | h <;> exact h))
+
+/-- the repair changes nothing where the old code did not panic: a size book the old code completed is
+    the size book of the new code -/
+theorem C02_fix_conservative (region src : Sz) (ps : List FPrim) (acc out : List Sz)
+    (h : sizeBookOld region src ps acc = .ok out) : sizeBook region src ps acc = .ok out := by
+  induction ps generalizing acc with
+  | nil => simpa [sizeBookOld, sizeBook] using h
+  | cons p ps ih =>
+    unfold sizeBookOld at h
+    unfold sizeBook
+    cases hp : primSizeOld region src acc p with
+    | error e => rw [hp] at h; cases h
+    | ok s =>
+      rw [hp] at h
+      have hq : primSize region src acc p = .ok s := by
+        cases p <;> simp only [primSizeOld, primSize] at hp ⊢ <;> (try exact hp)
+        all_goals (split_ifs at hp <;> first | exact hp | cases hp)
+      rw [hq]
+      exact ih _ h
+
+/-- Before the fix, when the layer had exactly the size of the filter region every intermediate image had
+    that size and no assertion fired — for every primitive list and wiring. -/
+theorem C02_old_sizes_agree_partial (region : Sz) (ps : List FPrim) (acc : List Sz)
     (hacc : ∀ s ∈ acc, s = region) :
-    ∃ out, sizeBook region region ps acc = .ok out ∧ ∀ s ∈ out, s = region := by
+    ∃ out, sizeBookOld region region ps acc = .ok out ∧ ∀ s ∈ out, s = region := by
   induction ps generalizing acc with
   | nil => exact ⟨acc, rfl, hacc⟩
   | cons p ps ih =>
-    have hp : primSize region region acc p = .ok region := by
-      cases p <;> simp [primSize, inSize_region region acc hacc]
-    unfold sizeBook
+    have hp : primSizeOld region region acc p = .ok region := by
+      cases p <;> simp [primSizeOld, inSize_region region acc hacc]
+    unfold sizeBookOld
     rw [hp]
     apply ih
     intro s hs
@@ -157,19 +191,14 @@ theorem C02_sizes_agree_partial (region : Sz) (ps : List FPrim) (acc : List Sz)
     · exact hacc s h
     · simpa using h
 
-/-- Full statement: sizes agree whatever the layer size. -/
-def C02_sizes_agree_stmt : Prop :=
-  ∀ (region src : Sz) (ps : List FPrim), ∃ out, sizeBook region src ps [] = .ok out
-
-/-- False on the current tree: a region that was clamped by `fit_to_rect` (layer 100×100, region
-    300×300) with feFlood + arithmetic feComposite(SourceGraphic, flood) fires the assertion.
+/-- Before the fix the full statement was false: a region that was clamped by `fit_to_rect` (layer 100×100,
+    region 300×300) with feFlood + arithmetic feComposite(SourceGraphic, flood) fired the assertion.
     Replay: findings/C02/clamped-arithmetic.svg -/
-theorem C02_sizes_agree_false : ¬ C02_sizes_agree_stmt := by
-  intro h
-  obtain ⟨out, ho⟩ := h (300, 300) (100, 100) [.flood, .composite true .source (.ref 0)]
-  have e : sizeBook (300, 300) (100, 100) [.flood, .composite true .source (.ref 0)] []
-      = .error "crates/resvg/src/filter/composite.rs:assertion_failed:_src#.width_==_src#.width_&&_src#.width_==_dest.width" := by decide +kernel
-  rw [e] at ho; cases ho
+theorem C02_old_sizes_agree_false :
+    sizeBookOld (300, 300) (100, 100) [.flood, .composite true .source (.ref 0)] []
+      = .error "crates/resvg/src/filter/composite.rs:assertion_failed:_src#.width_==_src#.width_&&_src#.width_==_dest.width" ∧
+    sizeBook (300, 300) (100, 100) [.flood, .composite true .source (.ref 0)] [] = .ok [(300, 300), (300, 300)] := by
+  constructor <;> decide +kernel
 
 /-- Pattern tiles: "bounded by a multiple of the canvas" is false — the tile size does not depend
     on the canvas at all (100000×100000 user-space pattern → 4·10¹⁰ bytes). -/
